@@ -22,7 +22,9 @@ def run(cmd, **kw):
 
 
 def confirm(src):
-    name = os.path.basename(os.path.dirname(src)).replace("wt_", "") + "-" + src[-1].lower()
+    import re
+
+    name = re.search(r"C\d\d", os.path.basename(os.path.dirname(src))).group(0) + "-" + src.rstrip("/")[-1].lower()
     d = tempfile.mkdtemp(prefix="egsim-confirm-", dir="/dev/shm")
     res = {"name": name, "src": src}
     try:
